@@ -461,6 +461,9 @@ example : ("PVTO.0.DATA", ["Pressure", "LiquidFVF", "Viscosity"]) ∈ itemQuanti
     Spec.colsOk (sys.UNIT_TYPE_FIELD Rat) ["Pressure", "1", "Viscosity"] ["Pressure", "LiquidFVF", "Viscosity"] = true ∧
     Spec.colsOk (sys.UNIT_TYPE_FIELD Rat) ["1", "Pressure", "Viscosity"] ["Pressure", "LiquidFVF", "Viscosity"] = false ∧
     Spec.colQuantOk (sys.UNIT_TYPE_FIELD Rat) "Pressure" "Length" = false ∧
+    Spec.colQuantOk (sys.UNIT_TYPE_FIELD Rat) "Permeability*Length*Length" "PermThickness" = false ∧    -- mutation M18
+    Spec.colQuantOk (sys.UNIT_TYPE_METRIC Rat) "Permeability*Length*Length" "PermThickness" = true ∧    -- … invisible in METRIC
+    Spec.colQuantOk (sys.UNIT_TYPE_METRIC Rat) "LiquidSurfaceVolume/Time" "Pressure" = false ∧          -- mutation M19
     Spec.colQuantOk (sys.UNIT_TYPE_FIELD Rat) "GasDissolutionFactor" "GasFVF" = false ∧
     Spec.colQuantOk (sys.UNIT_TYPE_METRIC Rat) "GasDissolutionFactor" "GasFVF" = true ∧
     Spec.colQuantOk (sys.UNIT_TYPE_FIELD Rat) "LiquidSurfaceVolume/Time" "ReservoirRate" = true := by decide +kernel
